@@ -17,6 +17,28 @@ def child(seed, actions):
     return json.loads(p.stdout)
 
 
+def failing_text(rnd, g):
+    """inputs whose compilation raises at different stages (lexer, parser, visitor, clause compiler, code
+    generator), in the middle of a program that uses the same variable and predicate names as the targets"""
+    vs = rnd.sample(cgen.VAR_NAMES, 3)
+    k = rnd.randrange(7)
+    if k == 0:
+        return 'this is ( not prolog'
+    if k == 1:
+        bad = 'p(%s, %s, foo/2) :- q(%s).\n' % (vs[0], vs[1], vs[2])                  # dies in the clause compiler
+    elif k == 2:
+        bad = 'p(%s) :- ( q(%s) -> r(%s, bar/1) ; true ).\n' % (vs[0], vs[1], vs[2])   # ... inside a block
+    elif k == 3:
+        bad = S.program_text([cgen.long_conjunction(rnd, rnd.randint(21, 30), 1)])      # too large: dies in the generator
+    elif k == 4:
+        bad = 'p(%s) :- %s = a, 3.\n' % (vs[0], vs[1])                                 # not callable: dies in the visitor
+    elif k == 5:
+        bad = "p(%s) :- q(%s), '$CUTIF'(cutIf1), r(%s).\n" % (vs[0], vs[1], vs[2])
+    else:
+        bad = 'p(%s) :- q(%s) # r.\n' % (vs[0], vs[1])                                 # lexer
+    return g.text(g.program(rnd.randint(0, 2))) + bad + g.text(g.program(rnd.randint(0, 1)))
+
+
 def case(rep, drv, rnd, i, tier):
     g = cgen.CGen(rnd, hostile=0.15)
     # several variables per clause, names that differ only in case, anonymous variables
@@ -47,10 +69,10 @@ def case(rep, drv, rnd, i, tier):
             r = rnd.random()
             if r < 0.4:
                 hist.append(['string', rnd.choice(targets[1:]), rnd.choice(['default', 'plain', 'sub-debug-filename'])])
-            elif r < 0.8:
+            elif r < 0.7:
                 hist.append(['file', rnd.choice(files), rnd.choice(['default', 'default', 'plain', 'sub-debug-filename'])])
             else:
-                hist.append(['string', 'this is ( not prolog', 'default'])
+                hist.append(['string', failing_text(rnd, g), 'default'])
         outs = child(rnd.randrange(1000), hist + [['string', targets[0], opt]])
         variants.append(('after %d other compilations' % len(hist), outs[-1]))
         rep.count('history-length=%d' % len(hist))
